@@ -119,6 +119,8 @@ class ScanForStart(Stream):
         return replies[0]
 
     def prop(self, case, o):
+        if len(o) != 3:
+            return "scan_for_start raised %s" % (o[1:],)
         # the scanner's line counter equals 1 + newlines consumed (C15's statement for this function)
         consumed = case[: len(case) - int(o[0])]
         if int(o[1]) != 1 + consumed.count("\n"):
@@ -126,7 +128,7 @@ class ScanForStart(Stream):
         return None
 
     def tag(self, case, o):
-        return "ret=" + o[2]
+        return "ret=" + o[2] if len(o) == 3 else "exception"
 
     def shrink(self, case):
         return pc.shrink_text(case)
